@@ -21,9 +21,10 @@ reaches its successors, and the path returned is a walk from a source but not th
 		Run: func(c *Ctx, s *Sink) {
 			c.EachFunc([]string{"pkg/obikmer"}, func(p *packages.Package, fd *ast.FuncDecl) {
 				info := p.TypesInfo
+				done := false
 				ast.Inspect(fd.Body, func(nd ast.Node) bool {
 					loop, ok := nd.(*ast.ForStmt)
-					if !ok {
+					if !ok || done {
 						return true
 					}
 					// the mark: if M[x] { continue }
@@ -42,8 +43,10 @@ reaches its successors, and the path returned is a walk from a source but not th
 					if mark == nil {
 						return true
 					}
+					done = true
 					n := 0
-					ast.Inspect(loop.Body, func(m ast.Node) bool {
+					// the relaxation block may have been moved into a function literal declared beside the loop
+					ast.Inspect(fd.Body, func(m ast.Node) bool {
 						is, ok := m.(*ast.IfStmt)
 						if !ok {
 							return true
